@@ -403,6 +403,115 @@ func rulePartDep(r *Run) {
 		r.Check("part-dep", "word/styles.xml", fn.Pos(), ok,
 			"serializeStyles must (re)generate word/styles.xml from the style registry on every successful path; it returns early when the part already exists (always after the first save or after Open), so styles added or changed through the style API are silently not written")
 	}
+	// (a') Open tolerates a styles part it cannot load (the registry is then replaced by the
+	// predefined set), so the registry is not a complete description of an opened document's
+	// styles: overwriting an EXISTING styles part with content that does not depend on that part
+	// loses the document's own definitions, which its body still refers to.
+	if fn := p.Func(pkgDoc, "(*Document).serializeStyles"); fn != nil {
+		tolerant, tolPos := openToleratesStyleFailure(p)
+		allInstrs(fn, func(in ssa.Instruction) {
+			mu, ok := in.(*ssa.MapUpdate)
+			if !ok {
+				return
+			}
+			if k, ok := symOf(mu.Key).isConst(); !ok || k != "word/styles.xml" {
+				return
+			}
+			// can the store be reached while the part is present?
+			var lookups []*ssa.Lookup
+			allInstrs(fn, func(in2 ssa.Instruction) {
+				if lk, ok := in2.(*ssa.Lookup); ok && lk.CommaOk {
+					if k, ok := symOf(lk.Index).isConst(); ok && k == "word/styles.xml" {
+						lookups = append(lookups, lk)
+					}
+				}
+			})
+			presentEdge := func(from *ssa.BasicBlock, i int) bool {
+				// false edges of `ok` / `len(existing) > 0` tests are not taken when the part is present
+				if len(from.Instrs) == 0 {
+					return true
+				}
+				iff, ok := from.Instrs[len(from.Instrs)-1].(*ssa.If)
+				if !ok {
+					return true
+				}
+				isOK := func(v ssa.Value) bool {
+					ex, ok := v.(*ssa.Extract)
+					if !ok || ex.Index != 1 {
+						return false
+					}
+					for _, lk := range lookups {
+						if ex.Tuple == ssa.Value(lk) {
+							return true
+						}
+					}
+					return false
+				}
+				isBytes := func(v ssa.Value) bool {
+					ex, ok := v.(*ssa.Extract)
+					if !ok || ex.Index != 0 {
+						return false
+					}
+					for _, lk := range lookups {
+						if ex.Tuple == ssa.Value(lk) {
+							return true
+						}
+					}
+					return false
+				}
+				if isOK(iff.Cond) {
+					return i == 0
+				}
+				if bo, ok := iff.Cond.(*ssa.BinOp); ok {
+					if c, ok := bo.X.(*ssa.Call); ok {
+						if b, ok := c.Call.Value.(*ssa.Builtin); ok && b.Name() == "len" && isBytes(c.Call.Args[0]) {
+							if z, isC := constInt(bo.Y); isC && z == 0 {
+								switch bo.Op {
+								case token.GTR, token.NEQ:
+									return i == 0
+								case token.EQL, token.LEQ:
+									return i == 1
+								}
+							}
+						}
+					}
+				}
+				return true
+			}
+			seen := map[*ssa.BasicBlock]bool{}
+			var walk func(b *ssa.BasicBlock)
+			walk = func(b *ssa.BasicBlock) {
+				if seen[b] {
+					return
+				}
+				seen[b] = true
+				for i, sc := range b.Succs {
+					if presentEdge(b, i) {
+						walk(sc)
+					}
+				}
+			}
+			walk(fn.Blocks[0])
+			if !seen[mu.Block()] {
+				r.Check("part-dep", "word/styles.xml:keeps-existing", mu.Pos(), true, "serializeStyles never overwrites a styles part that is already there")
+				return
+			}
+			dsl := newSlicer(p)
+			dsl.dataOnly = true
+			res := dsl.Slice(mu.Value)
+			merges := false
+			for v := range res.Vals {
+				if lk, ok := v.(*ssa.Lookup); ok {
+					if k, ok := symOf(lk.Index).isConst(); ok && k == "word/styles.xml" {
+						merges = true
+					}
+				}
+			}
+			okc := merges || !tolerant
+			r.Check("part-dep", "word/styles.xml:keeps-existing", mu.Pos(), okc,
+				fmt.Sprintf("serializeStyles can overwrite an existing word/styles.xml with content that does not depend on it, while Open accepts packages whose styles it could not load (%s: the registry is replaced by the predefined set): for such a document the regenerated part lacks the styles its body uses", tolPos))
+		})
+	}
 	// (b) numbering: the regenerated numbering part depends on the existing part or a per-document registry
 	if fn := r.mustFunc(pkgDoc, "(*Document).updateNumberingFile"); fn != nil {
 		found := false
@@ -623,4 +732,73 @@ func ruleMemoKey(r *Run) {
 		})
 	}
 	r.Min("memoised_definitions", n, 1)
+}
+
+// openToleratesStyleFailure: on the Open path the error of the function that loads the styles part
+// into the registry is not propagated (the branch taken on failure has no return).
+func openToleratesStyleFailure(p *Program) (bool, string) {
+	open := p.Func(pkgDoc, "openFromZipReader")
+	if open == nil {
+		return true, "Open path not resolved"
+	}
+	tol, where := false, ""
+	for _, fn := range sortedFuncs(p.staticReach(open)) {
+		if fn.Pkg == nil || fn.Pkg.Pkg.Path() != pkgDoc {
+			continue
+		}
+		allInstrs(fn, func(in ssa.Instruction) {
+			c, ok := in.(*ssa.Call)
+			if !ok {
+				return
+			}
+			cal := staticCallee(c)
+			if cal == nil || !p.inModule(cal) {
+				return
+			}
+			// the styles loader: reaches style.(*StyleManager).LoadStylesFromDocument / ParseStylesFromXML
+			loads := false
+			for g := range p.staticReach(cal) {
+				if g.Pkg != nil && g.Pkg.Pkg.Path() == pkgSty && (calleeIs(g, "ParseStylesFromXML") || calleeIs(g, "LoadStylesFromDocument")) {
+					loads = true
+				}
+			}
+			if !loads || failIndex(cal.Signature) < 0 || fn == cal {
+				return
+			}
+			// the error result's non-nil branch
+			if c.Referrers() == nil {
+				tol, where = true, p.pos(c.Pos())
+				return
+			}
+			handled := false
+			for _, u := range *c.Referrers() {
+				bo, ok := u.(*ssa.BinOp)
+				if !ok || bo.Op != token.NEQ || bo.Referrers() == nil {
+					continue
+				}
+				for _, u2 := range *bo.Referrers() {
+					iff, ok := u2.(*ssa.If)
+					if !ok {
+						continue
+					}
+					handled = true
+					hasRet := false
+					for b := range edgeRegion(iff.Block(), iff.Block().Succs[0]) {
+						for _, in3 := range b.Instrs {
+							if _, ok := in3.(*ssa.Return); ok {
+								hasRet = true
+							}
+						}
+					}
+					if !hasRet {
+						tol, where = true, p.pos(c.Pos())
+					}
+				}
+			}
+			if !handled {
+				tol, where = true, p.pos(c.Pos())
+			}
+		})
+	}
+	return tol, where
 }
